@@ -49,7 +49,11 @@ func mkC09(v9 bool) *c09env {
 	// templates that are known but not decodable: element absent from the model
 	U1 := ref.Template{ID: 310, Fields: []ref.Field{{ID: 9999, Len: 4, Type: ref.TUnknown}, f(ref.TU16, 0)}}
 	U2 := ref.Template{ID: 311, Options: true, Scope: []ref.Field{{ID: 9998, Len: 2, Type: ref.TUnknown}}, Fields: []ref.Field{f(ref.TU32, 0)}}
-	for _, t := range []ref.Template{A, B, C, D, U1, U2} {
+	// ... where the absent element is NOT the first field: the decoder has already consumed octets of the record
+	// when it finds out (what it then skips must still be "the rest of the set by its declared length")
+	U3 := ref.Template{ID: 312, Fields: []ref.Field{f(ref.TU32, 0), {ID: 9997, Len: 2, Type: ref.TUnknown}, f(ref.TU16, 0)}}
+	U4 := ref.Template{ID: 313, Options: true, Scope: []ref.Field{f(ref.TU32, 0)}, Fields: []ref.Field{f(ref.TU8, 0), {ID: 9996, Len: 4, Type: ref.TUnknown}}}
+	for _, t := range []ref.Template{A, B, C, D, U1, U2, U3, U4} {
 		e.tpls[t.ID] = t
 	}
 	val := func(b ...byte) ref.Value { return ref.Value{Raw: b} }
@@ -120,7 +124,7 @@ func (e *c09env) perturbations(tier string) []perturbation {
 			}
 		}
 	}
-	for _, id := range []uint16{310, 311} {
+	for _, id := range []uint16{310, 311, 312, 313} {
 		for bi, b := range bodies {
 			ps = append(ps, perturbation{fmt.Sprintf("absent-element-tpl-%d/body%d", id, bi), ref.Set{Kind: ref.SetRaw, RawID: id, RawBody: b}, false})
 		}
@@ -146,7 +150,7 @@ func perturbSpace(v9 bool, tier string) mck.Space {
 		name = "v9"
 	}
 	var all []ref.Template
-	for _, id := range []uint16{300, 301, 302, 303, 310, 311} {
+	for _, id := range []uint16{300, 301, 302, 303, 310, 311, 312, 313} {
 		all = append(all, e.tpls[id])
 	}
 	var plain, opts []ref.Template
@@ -270,6 +274,8 @@ func manySpace(v9 bool, tier string) mck.Space {
 		{"unknown-template", ref.Set{Kind: ref.SetRaw, RawID: 999, RawBody: body}, false},
 		{"absent-element-tpl-310", ref.Set{Kind: ref.SetRaw, RawID: 310, RawBody: body}, false},
 		{"absent-element-tpl-311", ref.Set{Kind: ref.SetRaw, RawID: 311, RawBody: body}, false},
+		{"absent-element-tpl-312", ref.Set{Kind: ref.SetRaw, RawID: 312, RawBody: body}, false},
+		{"absent-element-tpl-313", ref.Set{Kind: ref.SetRaw, RawID: 313, RawBody: body}, false},
 		{"empty-body-unknown-template", ref.Set{Kind: ref.SetRaw, RawID: 65535, RawBody: nil}, false},
 		{"mixture", ref.Set{}, false},
 	}
@@ -282,7 +288,7 @@ func manySpace(v9 bool, tier string) mck.Space {
 		counts = append(counts, 1000, 4000)
 	}
 	var all []ref.Template
-	for _, id := range []uint16{300, 301, 302, 303, 310, 311} {
+	for _, id := range []uint16{300, 301, 302, 303, 310, 311, 312, 313} {
 		all = append(all, e.tpls[id])
 	}
 	var tsets []ref.Set
